@@ -48,9 +48,7 @@ ExecutionStrategy = declare_ref(
     "workload.strategy.ExecutionStrategy",
     {"_resources": T.Ref("workload.resources.Resources"), "_batch_size": T.INT, "_runtime": ETy, "_id": T.STR, "_hash": T.INT},
 )
-BatchStrategy = declare_ref(
-    "workload.strategy.BatchStrategy", {"_strategy": T.Ref("workload.strategy.ExecutionStrategy")}, bases=["workload.strategy.ExecutionStrategy"]
-)
+BatchStrategy = declare_ref("workload.strategy.BatchStrategy", {}, bases=["workload.strategy.ExecutionStrategy"])
 ExecutionStrategies = declare_ref("workload.strategy.ExecutionStrategies", {"_strategies": T.List(T.Ref("workload.strategy.ExecutionStrategy"))})
 
 WorkProfile = declare_ref(
@@ -139,6 +137,40 @@ Event = declare_ref(
 )
 EventList = T.List(T.Ref("simulator.Event"))
 EventQueue = declare_ref("simulator.EventQueue", {"_event_queue": EventList})
+
+
+STRAT = T.Ref("workload.strategy.ExecutionStrategy")
+BSTRAT = T.Ref("workload.strategy.BatchStrategy")
+TASKR = T.Ref("workload.tasks.Task")
+PROFR = T.Ref("workload.profile.WorkProfile")
+PlacedTasks = T.Dict(TASKR, STRAT)
+TaskSet = T.Set(TASKR)
+PlacedBatches = T.Dict(BSTRAT, TaskSet)
+BatchTasks = T.Dict(BSTRAT, TASKR)
+Profiles = T.Dict(PROFR, STRAT)
+
+Worker = declare_ref(
+    "workers.workers.Worker",
+    {
+        "_logger": T.OPAQUE,
+        "_name": T.STR,
+        "_id": T.STR,
+        "_resources": T.Ref("workload.resources.Resources"),
+        "_placed_tasks": PlacedTasks,
+        "_placed_batches": PlacedBatches,
+        "_batch_tasks_for_strategy": BatchTasks,
+        "_available_profiles": Profiles,
+        "_pending_profiles": Profiles,
+    },
+)
+WORKERR = T.Ref("workers.workers.Worker")
+WorkerMap = T.Dict(T.STR, WORKERR)
+PoolPlaced = T.Dict(TASKR, T.STR)
+WorkerPool = declare_ref(
+    "workers.workers.WorkerPool",
+    {"_logger": T.OPAQUE, "_name": T.STR, "_workers": WorkerMap, "_scheduler": T.Ref(None), "_id": T.STR, "_placed_tasks": PoolPlaced},
+)
+WorkerPool.fields["_scheduler"].nullable = True
 
 
 def init_assigned_fields(qname):
